@@ -66,6 +66,7 @@ def gen_frame(rng, pk):
                     dose='given', duration='for')
     rows = []
     has_nan = False
+    combined = pk and rng.random() < 0.35
     for lab in labels:
         for o in obs:
             for _ in range(int(rng.integers(0, 5))):
@@ -79,6 +80,11 @@ def gen_frame(rng, pk):
                 if pk:
                     r[keys['dose']] = np.nan
                     r[keys['duration']] = np.nan
+                    if combined and rng.random() < 0.4:
+                        # a sample recorded on the dosing row itself
+                        r[keys['dose']] = float(np.round(
+                            rng.uniform(1, 5), 2))
+                        r[keys['duration']] = 0.01
                 rows.append(r)
         if pk:
             for _ in range(int(rng.integers(0, 3))):
